@@ -81,6 +81,10 @@ func (pass *DisjunctionInferMapping) inferDiscriminatorField(schema *ast.Schema,
 	// map[typeName][fieldName]value
 	candidates := make(map[string]map[string]any)
 
+	if len(def.Branches) == 0 {
+		return "", false
+	}
+
 	// Identify candidates from each branch
 	for _, branch := range def.Branches {
 		referredType, found := schema.Resolve(branch)
@@ -150,6 +154,10 @@ func (pass *DisjunctionInferMapping) buildDiscriminatorMapping(schema *ast.Schem
 			return nil, fmt.Errorf("could not resolve reference '%s'", branch.AsRef().String())
 		}
 
+		if !referredType.IsStruct() {
+			return nil, fmt.Errorf("reference '%s' does not resolve to a struct", branch.AsRef().String())
+		}
+
 		structType := referredType.AsStruct()
 
 		field, found := structType.FieldByName(def.Discriminator)
@@ -164,14 +172,21 @@ func (pass *DisjunctionInferMapping) buildDiscriminatorMapping(schema *ast.Schem
 
 		typeName := branch.AsRef().ReferredType
 
+		var discriminatorValue any
 		switch field.Type.Kind {
 		case ast.KindScalar:
-			mapping[field.Type.AsScalar().Value.(string)] = typeName
+			discriminatorValue = field.Type.AsScalar().Value
 		case ast.KindConstantRef:
-			mapping[field.Type.AsConstantRef().ReferenceValue.(string)] = typeName
+			discriminatorValue = field.Type.AsConstantRef().ReferenceValue
 		default:
 			return nil, fmt.Errorf("discriminator field '%s' is not concrete", field.Name)
 		}
+
+		discriminatorString, isString := discriminatorValue.(string)
+		if !isString {
+			return nil, fmt.Errorf("discriminator field '%s' does not hold a string", field.Name)
+		}
+		mapping[discriminatorString] = typeName
 	}
 
 	return mapping, nil
